@@ -117,7 +117,7 @@ func TestC17(t *testing.T) {
 	for i := 0; i < mon.Pick(90, 5000); i++ {
 		targets = append(targets, CustomTarget(i))
 	}
-	cookieSizes := []int{0, 1, 32, 1000, 20000}
+	cookieSizes := []int{0, 1, 32, 254, 255, 256, 257, 510, 511, 512, 1000, 20000} // incl. the sizes around multiples of 256: one- vs two-byte length boundaries
 	type job struct {
 		t      Target
 		group  uint16
